@@ -135,11 +135,20 @@ def propLoop (env : Env) (nv now : Nat) : Work → List CState → Except Err Wo
     | .error e => .error e
     | .ok k' => propLoop env nv now k' ps
 
-/-- `write_entity` + commit: a written state that existed gets `StateVersion = old.StateVersion + 1` (old = table) -/
+/-- `get_context_state` + commit (set_location path): a state taken into the transaction gets `StateVersion = old + 1` -/
 def bumpSv (tab : List CState) (touched : List Handle) (s : CState) : CState :=
   if touched.contains s.h then
     match tab.find? (·.h == s.h) with
     | some o => { s with sv := o.sv + 1 }
+    | none => s
+  else s
+
+/-- `ContextStateTransaction.write_entity` (SetContextState path): a written state that existed additionally gets the
+current DescriptorVersion of its descriptor in the MDIB -/
+def bumpWr (env : Env) (tab : List CState) (touched : List Handle) (s : CState) : CState :=
+  if touched.contains s.h then
+    match tab.find? (·.h == s.h) with
+    | some o => { s with sv := o.sv + 1, dv := (env.ctxDv s.dh).getD s.dv }
     | none => s
   else s
 
@@ -158,7 +167,7 @@ def setContextState (env : Env) (st : St) (ps : List CState) : St × Res :=
     | .error e => (st0, .err e)
     | .ok k =>
       if k.touched.isEmpty then (st0, .ok)   -- nothing in the transaction: no new MdibVersion
-      else ({ st0 with tab := k.w.map (bumpSv st.tab k.touched), ver := st.ver + 1, fresh := k.fresh }, .ok)
+      else ({ st0 with tab := k.w.map (bumpWr env st.tab k.touched), ver := st.ver + 1, fresh := k.fresh }, .ok)
 
 /-! ## set_location -/
 
